@@ -1,9 +1,222 @@
-// C14 — slashing accountability, part (a) evidence soundness: at every distinct state of the
-// C01 round-level BFS, every ordered pair of certificates the adversary saw (plus header
-// re-targeting) is handed as double-sign evidence to a real honest node's ProcessDSE; a
-// validator that signed at most one payload per view must never be named.
+// C14 — slashing accountability.
+//
+// Part (a) evidence soundness (bftworld): at every distinct state of the C01 round-level BFS,
+// every ordered pair of certificates the adversary saw (plus header re-targeting) is handed as
+// double-sign evidence to a real honest node's ProcessDSE; a validator that signed at most one
+// payload per view must never be named.
+//
+// Part (b) evidence-to-stake pipeline (chain.go): replay-BFS over which evidence reaches the
+// leader of each block on two real controller-level nodes; at-most-once per (validator, root
+// height), expiry, the per-committee cap, and Byzantine-proposer slash lists against
+// replica-side validation.
 package main
 
-import "verifharness/bftworld"
+import (
+	"flag"
+	"fmt"
+	"os"
 
-func main() { bftworld.Main("C14") }
+	"verifharness/bftworld"
+	"verifharness/mc"
+)
+
+var partFlag = flag.String("part", "", "only this part: bft | chain")
+var cdepthFlag = flag.Int("cdepth", 0, "override the depth of the chain part")
+
+func main() {
+	if mc.IsWorker() {
+		mc.ServeWorker(func(j cjob) cresult { return execChain(j) })
+	}
+	bftworld.PartFraction = 0.5
+	bftworld.Extra = chainPart
+	bftworld.ReplayHook = chainReplay
+	bftworld.SkipShared = func() bool { return *partFlag == "chain" }
+	bftworld.Main("C14")
+}
+
+type chainSearch struct {
+	start, depth, ops, maxFrontier int
+}
+
+func chainPart(r *mc.Run, cov map[string]any) {
+	if *partFlag == "bft" {
+		return
+	}
+	// quick: the 9-list alphabet from genesis to depth 3, and from a chain that is already 3 and 5
+	// blocks long (evidence of root heights 1..2 expired there) to depth 2
+	searches := []chainSearch{{0, 3, quickOps, 0}, {3, 2, quickOps, 0}, {5, 2, quickOps, 0}}
+	if !r.Quick() {
+		searches = []chainSearch{{0, 4, len(evLists), 0}, {3, 3, len(evLists), 0}, {5, 3, len(evLists), 0}, {0, 6, quickOps, 400}}
+	}
+	if *cdepthFlag > 0 {
+		for i := range searches {
+			searches[i].depth = *cdepthFlag
+		}
+	}
+	pool := mc.NewProcPool(0)
+	var states, probes, accepted, maxSlashed int
+	var transitions int64
+	var per []map[string]any
+	complete := true
+	for _, s := range searches {
+		s := s
+		if r.Expired() {
+			complete = false
+			break
+		}
+		stateProbes := map[string]bool{}
+		run := func(paths [][]int, probe bool) ([]*cresult, []bool) {
+			jobs := make([]cjob, len(paths))
+			for i, p := range paths {
+				jobs[i] = cjob{Start: s.start, Path: p, Probe: probe}
+			}
+			return mc.Map[cjob, cresult](pool, jobs, r.Expired)
+		}
+		// level-wise replay-BFS (mc.ReplayBFS cannot carry the extra result fields)
+		seen := map[string]bool{}
+		frontier := [][]int{{}}
+		rr, _ := run(frontier, false)
+		if rr[0] == nil || rr[0].HarnessErr != "" {
+			msg := "no result"
+			if rr[0] != nil {
+				msg = rr[0].HarnessErr
+			}
+			fmt.Println("HARNESS ERROR (chain part, initial state):", msg)
+			os.Exit(2)
+		}
+		seen[rr[0].Key] = true
+		nStates, nTrans, depthDone := 1, int64(0), 0
+		fr := []int{1}
+		for d := 0; d < s.depth && len(frontier) > 0; d++ {
+			var paths [][]int
+			for _, p := range frontier {
+				for o := 0; o < s.ops; o++ {
+					paths = append(paths, append(append([]int{}, p...), o))
+				}
+			}
+			res, crashed := run(paths, true)
+			var nf [][]int
+			missing := false
+			for i, x := range res {
+				if crashed[i] {
+					r.Violation("C14:worker-crash", fmt.Sprintf("worker died twice on start=%d path=%v", s.start, paths[i]), map[string]any{"part": "chain", "start": s.start, "path": paths[i]})
+					continue
+				}
+				if x == nil {
+					missing = true
+					continue
+				}
+				nTrans++
+				if x.HarnessErr != "" {
+					fmt.Printf("HARNESS ERROR (chain part) start=%d path=%v: %s\n", s.start, paths[i], x.HarnessErr)
+					os.Exit(2)
+				}
+				for _, v := range x.Viols {
+					r.OnViol(v)
+				}
+				probes += x.Probes
+				accepted += x.Accepted
+				if x.Slashes > maxSlashed {
+					maxSlashed = x.Slashes
+				}
+				if !x.OK || seen[x.Key] {
+					continue
+				}
+				seen[x.Key] = true
+				stateProbes[x.Key] = true
+				nf = append(nf, paths[i])
+			}
+			if missing {
+				complete = false
+				break
+			}
+			depthDone = d + 1
+			nStates += len(nf)
+			fr = append(fr, len(nf))
+			if s.maxFrontier > 0 && len(nf) > s.maxFrontier {
+				nf = nf[:s.maxFrontier]
+				complete = false
+			}
+			frontier = nf
+		}
+		if depthDone < s.depth {
+			complete = false
+		}
+		states += nStates
+		transitions += nTrans
+		per = append(per, map[string]any{"start_height": s.start + 1, "depth": s.depth, "depth_completed": depthDone, "alphabet": s.ops, "states": nStates, "transitions": nTrans, "frontier_per_depth": fr})
+		fmt.Printf("chain part: start=%d depth=%d/%d ops=%d states=%d transitions=%d frontier=%v\n", s.start+1, depthDone, s.depth, s.ops, nStates, nTrans, fr)
+		if len(frontier) > 0 {
+			p := frontier[len(frontier)/2]
+			var names []string
+			for _, op := range p {
+				names = append(names, listName(op))
+			}
+			r.AddSample(map[string]any{"part": "chain", "start_height": s.start + 1, "evidence_reaching_the_leader_per_block": names})
+		}
+	}
+	if !complete {
+		r.Exhaustive = false
+	}
+	r.Assumptions = append(r.Assumptions,
+		"chain part: own-root chain, 4 validators with compounding off, every certificate signed by the whole committee (no non-sign slashes); unstaking blocks 2, double-sign slash 10%, per-committee cap 15%, protocol version 2",
+		"chain part: the leader receives evidence the way ELECTION_VOTE messages deliver it (bft.AddDSE); the replica validates what the PROPOSE message would carry; expiry is judged with one block of slack (rootHeight + unstakingBlocks + 1 < proposal height)",
+	)
+	var lists []string
+	for i := range evLists {
+		lists = append(lists, listName(i))
+	}
+	cov["chain_part"] = map[string]any{"searches": per, "states": states, "transitions": transitions, "byzantine_proposer_probes": probes, "probes_accepted_by_replica": accepted,
+		"max_pairs_slashed_on_one_path": maxSlashed, "evidence_lists": lists, "complete": complete}
+	if s, ok := cov["states"].(int); ok {
+		cov["states"] = s + states
+	} else {
+		cov["states"] = states
+	}
+	switch t := cov["transitions"].(type) {
+	case int64:
+		cov["transitions"] = t + transitions
+		cov["traces_validated_against_impl"] = int(t + transitions)
+	default:
+		cov["transitions"] = transitions
+		cov["traces_validated_against_impl"] = int(transitions)
+	}
+	if maxSlashed == 0 {
+		r.Note("chain part: no path slashed anybody: the slashing oracles were only exercised on refusals")
+	}
+}
+
+func chainReplay(r *mc.Run) bool {
+	var rp struct {
+		Part  string `json:"part"`
+		Start int    `json:"start"`
+		Path  []int  `json:"path"`
+	}
+	if err := r.LoadReplay(&rp); err != nil || rp.Part != "chain" {
+		return false
+	}
+	outcomes := map[string]int{}
+	for i := 0; i < 5; i++ {
+		pool := mc.NewProcPool(1)
+		res, _ := mc.Map[cjob, cresult](pool, []cjob{{Start: rp.Start, Path: rp.Path, Probe: true}}, func() bool { return false })
+		if res[0] == nil {
+			fmt.Println("HARNESS ERROR: no result")
+			os.Exit(2)
+		}
+		sig := ""
+		for _, v := range res[0].Viols {
+			sig += v.Sig + ";"
+			if i == 0 {
+				r.OnViol(v)
+			}
+		}
+		outcomes[res[0].Key+"|"+sig+res[0].HarnessErr]++
+	}
+	fmt.Println("replay outcomes (5 runs):", outcomes)
+	if len(outcomes) != 1 {
+		fmt.Println("HARNESS ERROR: replay is not deterministic")
+		os.Exit(2)
+	}
+	r.Finish(map[string]any{"states": 1, "transitions": len(rp.Path), "traces_validated_against_impl": 1})
+	return true
+}
